@@ -103,6 +103,7 @@ func optsFor(prop string) GenOpts {
 		o.PPred, o.PEnd = 0.4, 0.7
 	case "C20":
 		o.ModSubset, o.PParallel, o.PWrap, o.PEmitters = true, 0, 0, 0
+		o.PBig = 0.25
 		o.Spellings = []string{"lit", "lit", "top", "funcvar", "method", "callret"}
 	}
 	return o
